@@ -1,6 +1,6 @@
-(* IoWitnesses: concrete refutation witnesses (known findings D4, D5) for the
-   full statements of C08 / C10, and the readings of the inputs of the repaired
-   finding D6, proved by vm_compute on canonical dumps. *)
+(* IoWitnesses: concrete refutation witnesses (known finding D5) for the full
+   statement of C10, and the readings of the inputs of the repaired findings
+   D4 and D6, proved by vm_compute on canonical dumps. *)
 From RM Require Import Model.Text Model.Encoding Model.Reader.
 From RM Require Import Proofs.EncodingFacts Proofs.ReaderFacts Proofs.TransparencyFacts.
 Require Import ZArith List.
@@ -66,29 +66,62 @@ Lemma extra_byte_read_events :
   show (read_all_lines (mk_reader [255; 254; 97; 0; 10] [Chunk 5])) = show (IoDone [lit "a"]).
 Proof. vm_compute. repeat split. Qed.
 
-(* ---------- D4 ---------- *)
+(* ---------- D4 (repaired): the formerly failing deliveries ---------- *)
 
-Definition d4_bytes : bytes := lit "[Metadata]" ++ [10] ++ lit "Title:abc" ++ [10].
+Definition small_file : bytes := lit "[Metadata]" ++ [10] ++ lit "Title:abc" ++ [10].
+Definition small_lines : io (list str) := IoDone [lit "[Metadata]"; lit "Title:abc"].
 
-(* a first chunk of two bytes: those bytes are lost *)
-Lemma schedule_independent_refuted :
-  exists b s1 s2, faultless s1 /\ faultless s2 /\
-    read_all_lines (mk_reader b s1) <> read_all_lines (mk_reader b s2).
-Proof.
-  exists d4_bytes, [], [Chunk 2]. split; [exact faultless_nil|split; [faultless_by_compute|]].
-  intros H. apply (f_equal show) in H. vm_compute in H. discriminate.
-Qed.
-
-(* BufReader::with_capacity(2, _): every chunk has two bytes, nothing is left *)
-Lemma capacity_two_loses_everything :
-  show (read_all_lines (mk_reader d4_bytes (repeat (Chunk 2) 12))) = show (IoDone []) /\
-  show (read_all_lines (mk_reader d4_bytes [])) = show (IoDone [lit "[Metadata]"; lit "Title:abc"]) /\
-  show (read_all_lines (mk_reader d4_bytes (repeat (Chunk 3) 8))) = show (IoDone [lit "[Metadata]"; lit "Title:abc"]) /\
-  show (read_all_lines (mk_reader d4_bytes [Chunk 2; Chunk 100])) = show (IoDone [lit "etadata]"; lit "Title:abc"]).
+(* a first chunk of one or two bytes (before the repair those bytes were lost:
+   [Chunk 2; Chunk 100] gave "etadata]"), BufReader::with_capacity(2, _) and
+   (1, _) (before: an empty map), single-byte delivery with Interrupted *)
+Lemma short_first_chunks_decode :
+  show (read_all_lines (mk_reader small_file [])) = show small_lines /\
+  show (read_all_lines (mk_reader small_file [Chunk 2])) = show small_lines /\
+  show (read_all_lines (mk_reader small_file [Chunk 2; Chunk 100])) = show small_lines /\
+  show (read_all_lines (mk_reader small_file [Chunk 1; Chunk 100])) = show small_lines /\
+  show (read_all_lines (mk_reader small_file (repeat (Chunk 2) 12))) = show small_lines /\
+  show (read_all_lines (mk_reader small_file (repeat (Chunk 1) 30))) = show small_lines /\
+  show (read_all_lines (mk_reader small_file (repeat (Chunk 3) 8))) = show small_lines /\
+  show (read_all_lines (mk_reader small_file [Chunk 1; Interrupted; Chunk 1; Interrupted; Interrupted; Chunk 1; Chunk 1])) = show small_lines.
 Proof. vm_compute. repeat split. Qed.
 
-(* a stream of one or two bytes is dropped even in one chunk *)
-Lemma short_stream_dropped :
-  show (read_all_lines (mk_reader (lit "ab") [])) = show (IoDone []) /\
-  show (read_all_lines (mk_reader (lit "abc") [])) = show (IoDone [lit "abc"]).
+(* a byte order mark split over several chunks, at every position, in the
+   three encodings that have one *)
+Lemma split_bom_decodes :
+  let text := lit "a" ++ [10] ++ lit "b" in
+  let L := show (IoDone [lit "a"; lit "b"]) in
+  show (read_all_lines (mk_reader (bom_utf8 ++ utf8_enc text) [Chunk 1; Chunk 1; Chunk 1; Chunk 100])) = L /\
+  show (read_all_lines (mk_reader (bom_utf8 ++ utf8_enc text) [Chunk 1; Chunk 2; Chunk 100])) = L /\
+  show (read_all_lines (mk_reader (bom_utf8 ++ utf8_enc text) [Chunk 2; Interrupted; Chunk 1; Chunk 100])) = L /\
+  show (read_all_lines (mk_reader (bom_utf8 ++ utf8_enc text) [Chunk 2; Chunk 2; Chunk 2; Chunk 2])) = L /\
+  show (read_all_lines (mk_reader (bom_le ++ utf16le_enc text) [Chunk 1; Interrupted; Chunk 1; Chunk 100])) = L /\
+  show (read_all_lines (mk_reader (bom_le ++ utf16le_enc text) (repeat (Chunk 1) 12))) = L /\
+  show (read_all_lines (mk_reader (bom_le ++ utf16le_enc text) (repeat (Chunk 2) 6))) = L /\
+  show (read_all_lines (mk_reader (bom_be ++ utf16be_enc text) [Chunk 1; Chunk 1; Chunk 100])) = L /\
+  show (read_all_lines (mk_reader (bom_be ++ utf16be_enc text) (repeat (Chunk 1) 12))) = L.
+Proof. vm_compute. repeat split. Qed.
+
+(* streams of zero to three bytes (before the repair one or two bytes were
+   dropped even by from_bytes): the text, nothing behind a bare BOM, U+FFFD
+   for a truncated BOM *)
+Lemma short_streams_decode :
+  show (read_all_lines (mk_reader [] [])) = show (IoDone []) /\
+  show (read_all_lines (mk_reader (lit "a") [])) = show (IoDone [lit "a"]) /\
+  show (read_all_lines (mk_reader (lit "ab") [])) = show (IoDone [lit "ab"]) /\
+  show (read_all_lines (mk_reader (lit "ab") [Chunk 1; Chunk 1])) = show (IoDone [lit "ab"]) /\
+  show (read_all_lines (mk_reader (lit "abc") [])) = show (IoDone [lit "abc"]) /\
+  show (read_all_lines (mk_reader (lit "abc") [Chunk 1; Chunk 1; Chunk 1])) = show (IoDone [lit "abc"]) /\
+  show (read_all_lines (mk_reader [255; 254] [])) = show (IoDone []) /\
+  show (read_all_lines (mk_reader [255; 254] [Chunk 1])) = show (IoDone []) /\
+  show (read_all_lines (mk_reader [239; 187; 191] [Chunk 1; Chunk 1])) = show (IoDone []) /\
+  show (read_all_lines (mk_reader [239; 187] [])) = show (IoDone [[65533]]) /\
+  show (read_all_lines (mk_reader [10] [])) = show (IoDone [[]]).
+Proof. vm_compute. repeat split. Qed.
+
+(* a failure / Interrupted while read_bom is still collecting its bytes *)
+Lemma bom_sniffing_events :
+  show (read_all_lines (mk_reader small_file [Chunk 1; Fail TimedOut; Chunk 100])) = [1; 4] /\
+  show (read_all_lines (mk_reader small_file [Chunk 2; Interrupted; Fail Other])) = [1; 1] /\
+  show (read_all_lines (mk_reader small_file [Interrupted; Chunk 1; Interrupted; Chunk 1; Interrupted; Chunk 100])) = show small_lines /\
+  show (read_all_lines (mk_reader (lit "ab") [Chunk 2; Fail WouldBlock])) = [1; 5].
 Proof. vm_compute. repeat split. Qed.
